@@ -1,0 +1,34 @@
+//go:build verif
+// +build verif
+
+package systemSmartContracts
+
+// Exported aliases of the unexported storage-key constants of the delegation and staking system
+// smart contracts. Used only by the external runtime monitors in /verif (build tag verif); nothing
+// here changes behaviour.
+const (
+	// delegation contract
+	VerifDelegationConfigKey = delegationConfigKey
+	VerifDelegationStatusKey = delegationStatusKey
+	VerifDelegationMetaData  = delegationMetaData
+	VerifLastFundKey         = lastFundKey
+	VerifGlobalFundKey       = globalFundKey
+	VerifServiceFeeKey       = serviceFeeKey
+	VerifTotalActiveKey      = totalActiveKey
+	VerifRewardKeyPrefix     = rewardKeyPrefix
+	VerifFundKeyPrefix       = fundKeyPrefix
+
+	// fund types stored in Fund.Type
+	VerifFundTypeActive   = active
+	VerifFundTypeUnStaked = unStaked
+
+	// staking contract
+	VerifOwnerKey             = ownerKey
+	VerifNodesConfigKey       = nodesConfigKey
+	VerifWaitingListHeadKey   = waitingListHeadKey
+	VerifWaitingElementPrefix = waitingElementPrefix
+
+	// validator contract
+	VerifUnJailedFundsKey       = unJailedFunds
+	VerifUnStakeUnBondPauseKey = unStakeUnBondPauseKey
+)
